@@ -24,9 +24,9 @@ def calc_multiplicity(molecule, n_radical_electrons):
         (int): multiplicity of the molecule
     """
 
-    if molecule.mult == 1 and n_radical_electrons == 1:
-        # Cannot have multiplicity = 1 and 1 radical electrons – override
-        # default multiplicity
+    if molecule.mult == 1 and n_radical_electrons % 2 == 1:
+        # Cannot have multiplicity = 1 and an odd number of radical
+        # electrons – override default multiplicity
         return 2
 
     if molecule.mult == 1 and n_radical_electrons > 1:
